@@ -108,19 +108,31 @@ fn check_record(c: i32, rep: &mut Report) {
         return; // content would have to be a well-formed body; C03 covers that
     }
     let f = record_file(c);
+    // the generic read and a typed read (concrete type rotating with the code) must both
+    // refuse the record with the invalid-shape-type error carrying the value
+    let typed_as = crate::gen::TYPES[(c as u32 % 13) as usize];
     let r = panicmon::catch(|| {
-        let mut rd = ShapeReader::new(Cursor::new(f)).map_err(|e| crate::shapes::err_class(&e))?;
-        let first = rd.iter_shapes().next();
-        match first {
+        let judge = |first: Option<Result<(), Error>>| match first {
             Some(Err(Error::InvalidShapeType(x))) if x == c => Ok(()),
             Some(Err(e)) => Err(crate::shapes::err_class(&e)),
-            Some(Ok(_)) => Err("Ok(shape)".to_string()),
+            Some(Ok(())) => Err("Ok(shape)".to_string()),
             None => Err("None".to_string()),
-        }
+        };
+        let mut rd = ShapeReader::new(Cursor::new(f.clone())).map_err(|e| ("generic", crate::shapes::err_class(&e)))?;
+        judge(rd.iter_shapes().next().map(|r| r.map(|_| ()))).map_err(|e| ("generic", e))?;
+        let mut rd = ShapeReader::new(Cursor::new(f.clone())).map_err(|e| ("typed", crate::shapes::err_class(&e)))?;
+        let first = for_type!(typed_as, S => rd.iter_shapes_as::<S>().next().map(|r| r.map(|_| ())));
+        judge(first).map_err(|e| ("typed", e))?;
+        let first = for_type!(typed_as, S => ShapeReader::new(Cursor::new(f)).and_then(|rd| rd.read_as::<S>()).map(|_| ()));
+        judge(Some(first)).map_err(|e| ("typed-read_as", e))
     });
     match r {
         Ok(Ok(())) => {}
-        Ok(Err(what)) => rep.violation("record-error", &format!("record:{}", c), J::obj(vec![("code", J::Int(c as i64)), ("got", J::s(what))])),
+        Ok(Err((route, what))) => rep.violation(
+            &format!("record-error/{}", route),
+            &format!("record:{}", c),
+            J::obj(vec![("code", J::Int(c as i64)), ("route", J::s(route)), ("typed_as", J::s(type_name(typed_as))), ("got", J::s(what))]),
+        ),
         Err(p) => rep.violation("record-error:panic", &format!("record:{}", c), J::obj(vec![("code", J::Int(c as i64)), ("panic", J::s(p.class()))])),
     }
 }
